@@ -8,6 +8,8 @@ from .astutil import norm, str_const
 from .av import AV, FRESH, KINDS, TOP, join, join_all, schema_av
 from .loader import ClassInfo, External, FuncInfo, Sym, dotted
 
+FULL_TURN = ("360", "360.0", "2 * np.pi", "2.0 * np.pi", "np.pi * 2", "2 * math.pi", "2 * pi", "2.0 * pi")
+
 VIEW_METHODS = {"ravel", "reshape", "squeeze", "transpose", "swapaxes", "view", "T"}
 COPY_METHODS = {"copy", "flatten", "tolist", "astype", "to_numpy", "compute", "load"}
 REDUCE_KEEP = {"min", "max", "mean", "median"}
@@ -118,7 +120,12 @@ def call_transfer(I, node: ast.Call, fr):
             bs = None
         ret = I.call_repo(f, args, kwargs, node, fr, bound_self=bs)
         if ret is None:
-            return summary_fallback(I, f, args, kwargs)
+            ret = summary_fallback(I, f, args, kwargs)
+        if f.name in UNITLEN_PRODUCERS and f.cls is None:
+            if ret.elts and len(ret.elts) == 3:
+                ret = ret.with_(elts=tuple(e.with_(unitlen=True, role=r) for e, r in zip(ret.elts, ("x", "y", "z"))))
+            else:
+                ret = AV(kind="tuple", elts=tuple(AV(kind="nd", unitlen=True, role=r, origins=FRESH) for r in ("x", "y", "z")), origins=FRESH)
         return ret
     if isinstance(target, ClassInfo):
         return construct(I, target, args, kwargs, node, fr)
@@ -131,6 +138,8 @@ def call_transfer(I, node: ast.Call, fr):
     I.stats["calls_unresolved"] += 1
     return TOP
 
+
+UNITLEN_PRODUCERS = {"_normalize_xyz", "_normalize_xyz_scalar", "_lonlat_rad_to_xyz"}
 
 BUILTINS = {"len", "range", "enumerate", "zip", "list", "tuple", "dict", "set", "int", "float", "str", "max", "min", "sum",
             "abs", "isinstance", "getattr", "setattr", "hasattr", "print", "any", "all", "sorted", "reversed", "map", "iter", "next", "super", "type", "bool"}
@@ -210,7 +219,10 @@ def external_call(I, name, node, args, kwargs, fr):
             if len(args) >= 3:
                 j = join(args[1].without("const", "origins", "kind"), args[2].without("const", "origins", "kind"))
                 unit = args[1].unit or args[2].unit if (args[1].unit is None or args[2].unit is None) else j.unit
-                return j.with_(kind="nd", origins=FRESH, unit=unit, role=args[1].role or args[2].role)
+                rng = args[1].rng if args[2].rng in (None, args[1].rng) else (args[2].rng if args[1].rng is None else None)
+                if args[1].const is None and args[2].const is None and args[1].rng != args[2].rng:
+                    rng = None
+                return j.with_(kind="nd", origins=FRESH, unit=unit, role=args[1].role or args[2].role, rng=rng)
             return TOP
         if n in ("argwhere", "nonzero", "flatnonzero"):
             sp = a0.axes[0] if a0.axes else None
@@ -254,6 +266,8 @@ def external_call(I, name, node, args, kwargs, fr):
             return out
         if n == "mod":
             out = a0.only("kind", "axes", "unit", "role").with_(origins=FRESH)
+            if len(node.args) > 1 and norm(node.args[1]) in FULL_TURN:
+                out = out.with_(rng="pos")
             return out
         if n == "pad":
             conn = a0.conn
